@@ -68,6 +68,8 @@ mod rational;
 pub mod verif_hooks;
 #[cfg(csl_verif)]
 pub mod verif_hooks_c12;
+#[cfg(csl_verif)]
+pub mod verif_oracle;
 
 pub use serialization::*;
 
